@@ -126,30 +126,38 @@ theorem c03_partial : C03_for C01.tr := by
 
 /-- THE PROVED PART, stages S1 and S2 (one directed hop with WHERE), for EVERY join-order choice of the hop: the model translator only
 produces closed statements -/
-theorem c03_partial_S2 (flipOf : C01.S2.Query → Bool) : C03_for (C01.tr2F flipOf) := by
+theorem c03_partial_S2 (flipOf : C01.S2.Query → Bool) (prune : Bool) : C03_for (C01.tr2F flipOf prune) := by
   intro km q st ps h
-  obtain ⟨hw, hps⟩ := C03.Frag.tr2_wellScoped flipOf km q st ps h
+  obtain ⟨hw, hps⟩ := C03.Frag.tr2_wellScoped flipOf prune km q st ps h
   subst hps
   exact wellScoped_sound _ _ hw
 
 /-- the binder's verdict itself (stronger than resolution: also no missing parameter, no CTE arity mismatch) for every `tr2F` statement -/
-theorem tr_wellScoped (flipOf : C01.S2.Query → Bool) (km : KindMap) (q : Cy.Query) (st : Stmt) (ps : List (String × Val))
-    (h : C01.tr2F flipOf km q = some (st, ps)) : wellScoped ⟨schema, ps.map (·.1), false⟩ st = true := by
-  obtain ⟨hw, hps⟩ := C03.Frag.tr2_wellScoped flipOf km q st ps h
+theorem tr_wellScoped (flipOf : C01.S2.Query → Bool) (prune : Bool) (km : KindMap) (q : Cy.Query) (st : Stmt) (ps : List (String × Val))
+    (h : C01.tr2F flipOf prune km q = some (st, ps)) : wellScoped ⟨schema, ps.map (·.1), false⟩ st = true := by
+  obtain ⟨hw, hps⟩ := C03.Frag.tr2_wellScoped flipOf prune km q st ps h
   subst hps
   exact hw
 
 /-- THE PROVED PART over all three stages S1, S2b, S2c (chains of two or three hops), for every join-order choice -/
-theorem c03_partial_S3 (flipOf : C01.S2.Query → Bool) (flipCh : C01.Ch.Query → Bool) : C03_for (C01.tr3F flipOf flipCh) := by
+theorem c03_partial_S3 (flipOf : C01.S2.Query → Bool) (flipCh : C01.Ch.Query → Bool) (prune : Bool) : C03_for (C01.tr3F flipOf flipCh prune) := by
   intro km q st ps h
-  obtain ⟨hw, hps⟩ := C03.Frag.tr3_wellScoped flipOf flipCh km q st ps h
+  obtain ⟨hw, hps⟩ := C03.Frag.tr3_wellScoped flipOf flipCh prune km q st ps h
   subst hps
   exact wellScoped_sound _ _ hw
 
 /-- THE PROVED PART over all four stages S1, S1c (count), S2b, S2c, for every join-order choice and the fast path on or off -/
-theorem c03_partial_S4 (flipOf : C01.S2.Query → Bool) (flipCh : C01.Ch.Query → Bool) (fast : Bool) : C03_for (C01.tr4F flipOf flipCh fast) := by
+theorem c03_partial_S4 (flipOf : C01.S2.Query → Bool) (flipCh : C01.Ch.Query → Bool) (fast prune : Bool) : C03_for (C01.tr4F flipOf flipCh fast prune) := by
   intro km q st ps h
-  obtain ⟨hw, hps⟩ := C03.Frag.tr4_wellScoped flipOf flipCh fast km q st ps h
+  obtain ⟨hw, hps⟩ := C03.Frag.tr4_wellScoped flipOf flipCh fast prune km q st ps h
+  subst hps
+  exact wellScoped_sound _ _ hw
+
+/-- THE PROVED PART over all five stages S1, S1c, S2b, S2c, S2n (count over a hop) -/
+theorem c03_partial_S5 (flipOf : C01.S2.Query → Bool) (flipCh : C01.Ch.Query → Bool) (flipN : C01.S2n.Query → Bool) (fast prune : Bool) :
+    C03_for (C01.tr5F flipOf flipCh flipN fast prune) := by
+  intro km q st ps h
+  obtain ⟨hw, hps⟩ := C03.Frag.tr5_wellScoped flipOf flipCh flipN fast prune km q st ps h
   subst hps
   exact wellScoped_sound _ _ hw
 
